@@ -113,6 +113,15 @@ func litmusTests() []litmus {
 					return ""
 				}},
 			wantKind: "", wantAll: true},
+		{name: "spin-wait on an atomic flag", reset: func() { data, flag32 = 0, 0 },
+			threads: []func() string{
+				func() string {
+					for vatomic.LoadUint32(&flag32) == 0 {
+					}
+					return str(*vrt.R(&data))
+				},
+				func() string { *vrt.W(&data) = 5; vatomic.StoreUint32(&flag32, 1); return "" }},
+			wantKind: "", wantAll: true, want: []string{"5", ""}},
 		{name: "atomic flag claimed before the data is written", reset: func() { data, flag32 = 0, 0 },
 			threads: []func() string{
 				func() string {
